@@ -1,8 +1,8 @@
 """C16 — arithmetic / bitwise / conversion instructions on the real interpreter against specs/arith.py.
 
 A case is {'prim': 'EDIV', 'ops': [[type, value], ...]} (top of stack first; bytes values as hex strings
-prefixed '0x').  `eval_case` pushes the operands with PUSH, runs the instruction through
-pytezos.michelson.repl.Interpreter and compares outcome, result type and result value with the reference.
+prefixed '0x').  `eval_case` pushes the operands with PUSH, runs the instruction the way
+pytezos.michelson.repl.Interpreter.execute does (see `execute`) and compares outcome, result type and result value with the reference.
 """
 from specs import arith as A
 
@@ -12,16 +12,32 @@ O_NONE = '{}::ensures.None_exactly_where_Michelson_says'
 O_SUPPORT = '{}::requires.operand_types_of_the_reference_accepted'
 O_ROUNDTRIP = '{}::ensures.number_bytes_number_roundtrip'
 
-_interp = None
+def mlit(t, v):
+    if t == 'bytes':
+        return {'bytes': v.hex()}
+    if t == 'bool':
+        return {'prim': 'True' if v else 'False'}
+    return {'int': str(v)}
 
 
-def interp():
-    global _interp
-    if _interp is None:
+def execute(instrs, text=None):
+    """what pytezos.michelson.repl.Interpreter.execute does on a fresh stack; the instruction sequence is given as
+    Micheline (the text parser rebuilds its LALR tables on every call and is property C18's subject); with `text` the
+    code goes through the real Interpreter.execute.  -> (error | None, stack items)"""
+    from pytezos.context.impl import ExecutionContext
+    from pytezos.michelson.micheline import MichelsonRuntimeError
+    from pytezos.michelson.sections import CodeSection
+    from pytezos.michelson.stack import MichelsonStack
+    if text is not None:
         from pytezos.michelson.repl import Interpreter
-        _interp = Interpreter()
-    _interp.reset()
-    return _interp
+        r = Interpreter().execute(text)
+        return r.error, (list(r.stack.items) if r.error is None else [])
+    stack, stdout = MichelsonStack(), []
+    try:
+        CodeSection.match(instrs).args[0].execute(stack, stdout, ExecutionContext())
+    except MichelsonRuntimeError as e:
+        return e, []
+    return None, list(stack.items)
 
 
 def lit(t, v):
@@ -70,13 +86,13 @@ def val_of(ty, m):
     return int(m['int'])
 
 
-def run(prim, ops):
+def run(prim, ops, via_text=False):
     """-> ('ok', ty, val) | ('error', text) ; ops python values, top first"""
     code = ' ; '.join(f'PUSH {t} {lit(t, v)}' for t, v in reversed(ops)) + f' ; {prim}'
-    r = interp().execute(code)
-    if r.error is not None:
-        return ('error', f'{type(r.error).__name__}{getattr(r.error, "args", "")!s:.200}'), code
-    items = list(r.stack.items)
+    instrs = [{'prim': 'PUSH', 'args': [{'prim': t}, mlit(t, v)]} for t, v in reversed(ops)] + [{'prim': prim}]
+    err, items = execute(instrs, code if via_text else None)
+    if err is not None:
+        return ('error', f'{type(err).__name__}{getattr(err, "args", "")!s:.200}'), code
     if len(items) != 1:
         return ('ok', 'stack-depth-%d' % len(items), None), code
     it = items[0]
@@ -126,7 +142,7 @@ def eval_case(case):
     ts = ':'.join(t for t, _ in ops)
     want = A.spec(prim, ops)
     assert want[0] != 'illtyped', case
-    got, code = run(prim, ops)
+    got, code = run(prim, ops, via_text=bool(case.get('text')))
     sh = shape(prim, ops, want)
     tag = f'{prim} {ts}' + (f' {sh}' if sh else '')
     out = []
@@ -196,14 +212,14 @@ def values_for(t, tier, role='any'):
     pos, allv = int_values(tier)
     if t == 'int':
         essential = [0, 1, -1, 127, 128, -128, -129, 255, 256, -255, -256, 32767, 32768, -32768, -32769, 2 ** 63 - 1, 2 ** 63, -2 ** 63, -2 ** 63 - 1, 2 ** 255, -2 ** 255, 2 ** 256, 2 ** 257, -2 ** 257]
-        return sorted(set(allv if thorough else essential))
+        return sorted(set(allv if thorough else essential + pick(allv, 10)))
     if t == 'nat':
         essential = [0, 1, 2, 127, 128, 255, 256, 32767, 32768, 65535, 65536, 2 ** 63 - 1, 2 ** 63, 2 ** 64, 2 ** 255, 2 ** 256 - 1, 2 ** 256, 2 ** 257]
-        return sorted(set(pos if thorough else essential))
+        return sorted(set(pos if thorough else essential + pick(pos, 8)))
     if t == 'mutez':
         m = [v for v in pos if v < 2 ** 63]
         essential = [0, 1, 2, 255, 256, 2 ** 31, 2 ** 32, 2 ** 62, 2 ** 63 - 2, 2 ** 63 - 1, 10 ** 18]
-        return sorted(set(m if thorough else essential))
+        return sorted(set(m if thorough else essential + pick(m, 6)))
     if t == 'timestamp':
         return sorted(set([0, 1, -1, 2 ** 31 - 1, 2 ** 31, 2 ** 63 - 1, 2 ** 63, -2 ** 63, 253402300800, -62135596800, 2 ** 255] + (pick(allv, 20) if thorough else [])))
     if t == 'bytes':
@@ -216,7 +232,7 @@ def values_for(t, tier, role='any'):
 def enumerate_cases(tier, seed=0):
     cases = []
     for prim, ops, _ in A.RECORDED:
-        cases.append(dict(prim=prim, ops=[[t, enc(t, v)] for t, v in ops]))
+        cases.append(dict(prim=prim, ops=[[t, enc(t, v)] for t, v in ops], text=1))
     for prim, combos in A.ALLOWED.items():
         for ts in combos:
             if len(ts) == 1:
